@@ -140,10 +140,15 @@ pub fn module(r: &mut Rng, allow_unstable: bool) -> (Vec<u8>, AInfo) {
         info.has_names = true; let mut ns = we::NameSection::new();
         // sparse mode: exactly one kind of entity is named (each subsection must work on its own)
         let only: Option<u64> = if r.chance(1, 3) { Some(r.below(8)) } else { None };
+        // tools leave stale entries behind (an index that no longer exists): they must be ignored without affecting other names
+        let stale = r.chance(1, 5);
         if only.is_none() && r.chance(1, 2) { ns.module(&name(r)); }
-        let mk = |r: &mut Rng, n: usize, kind: u64| { let mut nm = we::NameMap::new(); let on = only.map(|o| o == kind).unwrap_or(true); for k in 0..n as u32 { if on && (only.is_some() || r.chance(1, 2)) { nm.append(k, &format!("{}{}", name(r), k)); } } nm };
+        let mk = |r: &mut Rng, n: usize, kind: u64| { let mut nm = we::NameMap::new(); let on = only.map(|o| o == kind).unwrap_or(true); for k in 0..n as u32 { if on && (only.is_some() || r.chance(1, 2)) { nm.append(k, &format!("{}{}", name(r), k)); } }
+            if on && stale { nm.append(n as u32 + 3, "stale-entry-for-an-index-that-does-not-exist"); } nm };
         let fm = mk(r, funcs.len(), 0); if !fm.is_empty() || only.is_none() { ns.functions(&fm); }
-        let mut ind = we::IndirectNameMap::new(); let mut any_l = false; for fi in n_imp_funcs..funcs.len() { if only.map(|o| o == 1).unwrap_or(r.chance(1, 2)) { let np = types[funcs[fi] as usize].0.len(); let lm = mk(r, np + 2, 1); if !lm.is_empty() { any_l = true; ind.append(fi as u32, &lm); } } } if any_l || only.is_none() { ns.locals(&ind); }
+        let mut ind = we::IndirectNameMap::new(); let mut any_l = false; for fi in n_imp_funcs..funcs.len() { if only.map(|o| o == 1).unwrap_or(r.chance(1, 2)) { let np = types[funcs[fi] as usize].0.len(); let lm = mk(r, np + 2, 1); if !lm.is_empty() { any_l = true; ind.append(fi as u32, &lm); } } }
+        if stale && only.map(|o| o == 1).unwrap_or(true) { let mut lm = we::NameMap::new(); lm.append(0, "local-of-a-function-that-does-not-exist"); ind.append(funcs.len() as u32 + 2, &lm); any_l = true; }
+        if any_l || only.is_none() { ns.locals(&ind); }
         for (kind, n) in [(2u64, types.len()), (3, tables.len()), (4, mems.len()), (5, globals.len()), (6, n_elems), (7, n_d)] { let nm = mk(r, n, kind); if nm.is_empty() && only.is_some() { continue; }
             match kind { 2 => { ns.types(&nm); } 3 => { ns.tables(&nm); } 4 => { ns.memories(&nm); } 5 => { ns.globals(&nm); } 6 => { ns.elements(&nm); } _ => { ns.data(&nm); } } }
         m.section(&ns);
